@@ -182,7 +182,7 @@ class LLHRatioZeroNsTaylorWilksTestStatistic(
             log_lambda,
             fitparam_values,
             llhratio,
-            grads,
+            grads=None,
             tl=None,
             **kwargs):
         """Evaluates the test-statistic function.
@@ -202,10 +202,13 @@ class LLHRatioZeroNsTaylorWilksTestStatistic(
         llhratio : instance of LLHRatio
             The log-likelihood ratio function, which should be used for the
             test-statistic function.
-        grads : instance of numpy ndarray
+        grads : instance of numpy ndarray | None
             The (N_fitparam,)-shaped 1D numpy ndarray holding the
             values of the first derivative of the log-likelihood ratio function
             w.r.t. each global fit parameter.
+            If set to ``None``, the gradients are calculated by evaluating the
+            log-likelihood ratio function at the given fit parameter values
+            when they are needed, i.e. for ns = 0.
         tl : instance of TimeLord | None
             The optional instance of TimeLord to measure timing information.
 
@@ -220,6 +223,10 @@ class LLHRatioZeroNsTaylorWilksTestStatistic(
         ns = fitparam_values[ns_pidx]
 
         if ns == 0:
+            if grads is None:
+                (_, grads) = llhratio.evaluate(
+                    fitparam_values=fitparam_values,
+                    tl=tl)
             nsgrad = grads[ns_pidx]
             src_params_recarray = pmm.create_src_params_recarray(
                 gflp_values=fitparam_values)
